@@ -71,7 +71,7 @@ pub fn budget(prop: &str, tier: Tier) -> (u64, u64) {
         "C11" => if q { (30_000, 40) } else { (1_000_000, 420) },
         "C12" => if q { (60_000, 45) } else { (3_000_000, 480) },
         "C13" => if q { (12, 45) } else { (200, 480) },
-        "C14" => if q { (1_000_000, 45) } else { (1_000_000, 480) },
+        "C14" => if q { (crate::run2::c14_enumeration_cases() + 1_500, 60) } else { (crate::run2::c14_enumeration_cases() + 150_000, 480) },
         "C15" => if q { (30_000, 40) } else { (1_000_000, 420) },
         "C16" => if q { (2_000, 40) } else { (100_000, 420) },
         "C17" => if q { (400, 45) } else { (20_000, 480) },
